@@ -370,6 +370,9 @@ func genTime(rng *rand.Rand) time.Time {
 	loc := time.UTC
 	if rng.Intn(2) == 0 {
 		offMin := rng.Intn(28*60+1) - 14*60
+		if rng.Intn(6) == 0 {
+			offMin = []int{-30, -44, -1, 1, -59, 59, -60, -61, 30}[rng.Intn(9)] // sub-hour offsets of either sign
+		}
 		loc = time.FixedZone("", offMin*60)
 	}
 	t := time.Date(year, time.Month(1+rng.Intn(12)), 1+rng.Intn(28), rng.Intn(24), rng.Intn(60), rng.Intn(60), ns, loc)
